@@ -206,3 +206,95 @@ func (f *fixture) requestObjectProbe(r opfix.Router, q request, k clientKind, pl
 	}
 	return 2
 }
+
+// ---------------------------------------------------------------- request object followed through the whole code flow
+
+// roFlowCase: where the PKCE parameters of an authorization request with a request object travel.
+// Method: "" = not there. Challenge relation: "" = no challenge there, else the vrel constructor that says
+// how the verifier of the token request relates to that challenge.
+type roFlowCase struct {
+	kind       clientKind
+	placement  string
+	qMethod    string
+	oMethod    string
+	qChallenge string
+	oChallenge string
+	sent       bool
+}
+
+var challengeOf = map[string]string{"VS256": opfix.S256(verifier), "VPlain": verifier, "VNone": "some-other-challenge-some-other-challenge-1234"}
+
+const (
+	roState = "from-object"
+	roNonce = "object-nonce"
+	roScope = "openid profile"
+)
+
+// requestObjectFlow: authorize (with a request object signed by the client's registered key that carries its
+// own state, nonce, scope, redirect_uri and - as rc says - PKCE parameters) -> login -> callback -> token.
+// Returns issued, carried (callback and tokens carry what the object said), panicked.
+func (f *fixture) requestObjectFlow(r opfix.Router, q request, rc roFlowCase, audience string) (issued, carried, panicked bool) {
+	k := rc.kind
+	f.panicked = false
+	defer func() { panicked = f.panicked }()
+	if !f.has(r, iAuth, iToken) {
+		return
+	}
+	aq := url.Values{"client_id": {k.id}, "redirect_uri": {k.redirect}, "response_type": {"code"}, "scope": {"openid"},
+		"state": {"outer"}, "nonce": {"outer-nonce"}}
+	claims := map[string]any{"iss": k.id, "aud": []string{audience}, "client_id": k.id, "response_type": "code",
+		"redirect_uri": k.redirect, "scope": roScope, "state": roState, "nonce": roNonce,
+		"iat": time.Now().Unix(), "exp": time.Now().Add(time.Hour).Unix()}
+	switch rc.placement {
+	case "PRedirectInner":
+		aq.Del("redirect_uri")
+	case "PStateInner":
+		aq.Del("state")
+		aq.Del("nonce")
+	case "PScopeInner":
+		aq.Del("scope")
+	case "PResponseTypeInner":
+		aq.Del("response_type")
+	}
+	if rc.qMethod != "" {
+		aq.Set("code_challenge_method", rc.qMethod)
+	}
+	if rc.qChallenge != "" {
+		aq.Set("code_challenge", challengeOf[rc.qChallenge])
+	}
+	if rc.oMethod != "" {
+		claims["code_challenge_method"] = rc.oMethod
+	}
+	if rc.oChallenge != "" {
+		claims["code_challenge"] = challengeOf[rc.oChallenge]
+	}
+	aq.Set("request", signedJWT(claims))
+	ar := f.do(r, q, http.MethodGet, f.probePath(r, iAuth), aq, nil)
+	if ar.Status != http.StatusFound || ar.Location == nil {
+		return
+	}
+	id := ar.Location.Query().Get("authRequestID")
+	if id == "" || !f.store.Login(id, "alice") {
+		return
+	}
+	cb := f.do(r, q, http.MethodGet, f.probePath(r, iAuth)+"/callback", url.Values{"id": {id}}, nil)
+	params := cb.ResponseParams()
+	code := params.Get("code")
+	if code == "" {
+		return
+	}
+	tf := url.Values{"grant_type": {"authorization_code"}, "code": {code}, "redirect_uri": {k.redirect}}
+	if rc.sent {
+		tf.Set("code_verifier", verifier)
+	}
+	basic := clientAuth(k, audience, tf)
+	tr := f.do(r, q, http.MethodPost, f.probePath(r, iToken), tf, basic)
+	if tr.Status != http.StatusOK || tr.Str("access_token") == "" {
+		return
+	}
+	issued = true
+	nonce, _ := opfix.JWTPayload(tr.Str("id_token"))["nonce"].(string)
+	target := cb.Location.Scheme + "://" + cb.Location.Host + cb.Location.Path
+	carried = params.Get("state") == roState && nonce == roNonce && tr.Str("scope") == roScope && target == k.redirect
+	return
+}
